@@ -5,6 +5,7 @@ import (
 	"sync/atomic"
 
 	"github.com/massnetorg/mass-core/database"
+	"github.com/massnetorg/mass-core/massutil"
 	"github.com/massnetorg/mass-core/wire"
 )
 
@@ -107,3 +108,28 @@ func (c *CDB) CheckScriptHashUsed(h []byte) (bool, error) {
 	}
 	return c.Db.CheckScriptHashUsed(h)
 }
+
+func (c *CDB) FetchBlockBySha(sha *wire.Hash) (*massutil.Block, error) {
+	if err := c.call("FetchBlockBySha"); err != nil {
+		return nil, err
+	}
+	return c.Db.FetchBlockBySha(sha)
+}
+
+func (c *CDB) FetchBlockHeaderBySha(sha *wire.Hash) (*wire.BlockHeader, error) {
+	if err := c.call("FetchBlockHeaderBySha"); err != nil {
+		return nil, err
+	}
+	return c.Db.FetchBlockHeaderBySha(sha)
+}
+
+func (c *CDB) FetchTxByFileLoc(blkLoc *database.BlockLoc, txLoc *wire.TxLoc) (*wire.MsgTx, error) {
+	if err := c.call("FetchTxByFileLoc"); err != nil {
+		return nil, err
+	}
+	return c.Db.FetchTxByFileLoc(blkLoc, txLoc)
+}
+
+// CallerRole classifies the calling goroutine by the wallet frames on its stack (block, import,
+// remove, recvtx, start, worker, open; "api" for everything else, including the harness itself).
+func CallerRole() string { return roleOfCaller() }
